@@ -160,20 +160,16 @@ theorem parts_complete (e : Env) (stored : Nat → Bytes) : ∀ (gs : List (List
           rw [j3 k (fun r hr => hk r (by rw [hfl2] at hr; exact List.mem_append_right _ hr)),
               i4 k (fun r hr => hk r (List.mem_append_left _ hr))]
 
-/-- **C05 (completeness, multipart path, one call)**: a fresh download context that has learnt the boundary, a request whose
-entries match the index and are not yet valid, and a multipart body whose parts carry — in request order — the server's stored
-bytes of consecutive groups of the requested chunks (each hashing to its index checksum), every part header well formed for the
-part pattern, followed by a trailer (the closing delimiter) that holds no further part header: `multipart_extract` accepts the
-body, every requested chunk ends up marked valid, no other mark changes. -/
-theorem multipart_complete (e : Env) (stored : Nat → Bytes) (st : St) (pp : Bytes) (ps : List Part) (gs : List (List RChunk))
-    (trailer : Bytes) (hf : Fresh st) (hmp : st.mp = {}) (hrx : st.dlRx = .ok pp)
+/-- the payloads of a well-formed multipart response, handed to `dl_write_range` one after the other from a fresh context: each
+is taken completely, every requested chunk ends up marked valid, no other mark changes -/
+theorem multipart_taken (e : Env) (stored : Nat → Bytes) (st : St) (pp : Bytes) (ps : List Part) (gs : List (List RChunk))
+    (hf : Fresh st)
     (hpay : ps.map (·.payload) = gs.map (payloadOf stored)) (hgne : ∀ g ∈ gs, g ≠ []) (hne : gs ≠ [])
     (hridx : e.ridx = gs.flatten) (hrun : RunIdx 0 e.ridx)
     (hent : ∀ r ∈ e.ridx, EntryOk e stored r ∧ r.tgt < st.valid.length ∧ st.valid.getD r.tgt 0 ≠ 1)
-    (hnd : (e.ridx.map (·.tgt)).Nodup) (hok : ∀ p ∈ ps, PartOk e.rx pp p) (htr : NoHeader trailer) :
-    let out := mpExtract e st (partsBytes ps ++ trailer)
-    out.1 = true ∧ (∀ r ∈ e.ridx, out.2.valid.getD r.tgt 0 = 1) ∧
-    (∀ k, (∀ r ∈ e.ridx, r.tgt ≠ k) → out.2.valid.getD k 0 = st.valid.getD k 0) := by
+    (hnd : (e.ridx.map (·.tgt)).Nodup) (hok : ∀ p ∈ ps, PartOk e.rx pp p) :
+    ps ≠ [] ∧ Taken e st ps ∧ (∀ r ∈ e.ridx, (dwrParts e st ps).valid.getD r.tgt 0 = 1) ∧
+    (∀ k, (∀ r ∈ e.ridx, r.tgt ≠ k) → (dwrParts e st ps).valid.getD k 0 = st.valid.getD k 0) := by
   match gs, hne, hgne with
   | g :: gs', _, hgne =>
     match g, hgne g List.mem_cons_self with
@@ -211,21 +207,38 @@ theorem multipart_complete (e : Env) (stored : Nat → Bytes) (st : St) (pp : By
           (by rw [← hridx]; exact hnd) (by intro r hr; simp at hr) (openAt_opened e st rc tc hf hs)
         rw [← hT, ← hD, hvo, ← hridx] at hpc
         obtain ⟨k1, k2, k3, _⟩ := hpc
-        have hw := multipart_whole e st pp (p :: ps') trailer hf.err hmp hrx (by simp) hok htr k1
-        intro out
-        have hout : out = mpExtract e st (partsBytes (p :: ps') ++ trailer) := rfl
-        rw [hout, hw]
-        refine ⟨rfl, ?_, ?_⟩
-        · intro r hr
-          simp only
-          split
-          · exact k2 r hr
-          · exact k2 r hr
-        · intro k hk
-          simp only
-          split
-          · exact k3 k hk
-          · exact k3 k hk
+        exact ⟨by simp, k1, k2, k3⟩
+
+/-- **C05 (completeness, multipart path, one call)**: a fresh download context that has learnt the boundary, a request whose
+entries match the index and are not yet valid, and a multipart body whose parts carry — in request order — the server's stored
+bytes of consecutive groups of the requested chunks (each hashing to its index checksum), every part header well formed for the
+part pattern, followed by a trailer (the closing delimiter) that holds no further part header: `multipart_extract` accepts the
+body, every requested chunk ends up marked valid, no other mark changes. -/
+theorem multipart_complete (e : Env) (stored : Nat → Bytes) (st : St) (pp : Bytes) (ps : List Part) (gs : List (List RChunk))
+    (trailer : Bytes) (hf : Fresh st) (hmp : st.mp = {}) (hrx : st.dlRx = .ok pp)
+    (hpay : ps.map (·.payload) = gs.map (payloadOf stored)) (hgne : ∀ g ∈ gs, g ≠ []) (hne : gs ≠ [])
+    (hridx : e.ridx = gs.flatten) (hrun : RunIdx 0 e.ridx)
+    (hent : ∀ r ∈ e.ridx, EntryOk e stored r ∧ r.tgt < st.valid.length ∧ st.valid.getD r.tgt 0 ≠ 1)
+    (hnd : (e.ridx.map (·.tgt)).Nodup) (hok : ∀ p ∈ ps, PartOk e.rx pp p) (htr : NoHeader trailer) :
+    let out := mpExtract e st (partsBytes ps ++ trailer)
+    out.1 = true ∧ (∀ r ∈ e.ridx, out.2.valid.getD r.tgt 0 = 1) ∧
+    (∀ k, (∀ r ∈ e.ridx, r.tgt ≠ k) → out.2.valid.getD k 0 = st.valid.getD k 0) := by
+  obtain ⟨hpne, k1, k2, k3⟩ := multipart_taken e stored st pp ps gs hf hpay hgne hne hridx hrun hent hnd hok
+  intro out
+  have hw := multipart_whole e st pp ps trailer hf.err hmp hrx hpne hok htr k1
+  have hout : out = mpExtract e st (partsBytes ps ++ trailer) := rfl
+  rw [hout, hw]
+  refine ⟨rfl, ?_, ?_⟩
+  · intro r hr
+    simp only
+    split
+    · exact k2 r hr
+    · exact k2 r hr
+  · intro k hk
+    simp only
+    split
+    · exact k3 k hk
+    · exact k3 k hk
 
 theorem runIdx_pos : ∀ (l : List RChunk) (s : Nat), RunIdx s l → ∀ x ∈ l, 0 < x.compLen
   | [], _, _, x, hx => by simp at hx
